@@ -41,11 +41,9 @@ impl EventGen for ReuseElement {
             })?;
         // the instance is an element like any written by hand, and gets the defaults
         // in force where it is instantiated
-        // (as `Tag::generate_events()` has it: a container written with an end tag doesn't)
-        if instance_element.is_empty_element()
-            || instance_element.is_graphics_element()
-            || matches!(instance_element.name.as_str(), "box" | "point")
-        {
+        // (an instance with content of its own is processed as a tag further down, and
+        // gets them there as `Tag::generate_events()` has it - once)
+        if instance_element.is_empty_element() {
             context.apply_defaults(&mut instance_element);
         }
         // evaluate before splitting compound attributes, as for any other element:
